@@ -5,10 +5,15 @@ import (
 	"strings"
 )
 
-var (
-	sanitizeSetPassword = regexp.MustCompile(`(?i)password\s+for[^=]*=\s+(["']?[^\s"]+["']?)`)
+// sanitizePasswordLiteral matches a complete quoted string literal, escapes and
+// embedded blanks included, and otherwise falls back to a run of non-blanks so
+// that malformed queries are still redacted as far as possible.
+const sanitizePasswordLiteral = `'(?:[^'\\]|\\.)*'|"(?:[^"\\]|\\.)*"|["']?[^\s"]+["']?`
 
-	sanitizeCreatePassword = regexp.MustCompile(`(?i)with\s+password\s+(["']?[^\s"]+["']?)`)
+var (
+	sanitizeSetPassword = regexp.MustCompile(`(?i)password\s+for[^=]*=\s*(` + sanitizePasswordLiteral + `)`)
+
+	sanitizeCreatePassword = regexp.MustCompile(`(?i)with\s+password\s+(` + sanitizePasswordLiteral + `)`)
 )
 
 // Sanitize attempts to sanitize passwords out of a raw query.
